@@ -645,3 +645,21 @@ pub fn record(part: &mut crate::util::Part, label: &str, st: &Stats) {
         part.machinery_errors.push(format!("{}: {}", label, e));
     }
 }
+
+/// Vacuity guard: every listed environment fact must have occurred at least once in the graph;
+/// otherwise the configuration did not exercise what it claims and the run is a machinery
+/// failure (exit 2), never a verdict. Skipped when the exploration stopped early on a violation.
+pub fn require_facts(part: &mut crate::util::Part, label: &str, st: &Stats, required: &[&str]) {
+    if !st.violations.is_empty() {
+        return;
+    }
+    for r in required {
+        match st.facts.get(*r) {
+            Some(n) if *n > 0 => {}
+            _ => part.machinery_errors.push(format!("{}: vacuous exploration: environment fact `{}` never occurred", label, r)),
+        }
+    }
+    if st.distinct_obs < 2 && st.states > 1 {
+        part.machinery_errors.push(format!("{}: vacuous exploration: a single distinct observation sequence over {} states", label, st.states));
+    }
+}
